@@ -22,6 +22,12 @@ search       point x the grammar under sys.addaudithook; kernel-judged locations
              returns within its time / memory limit (runaway; harness/lib/bounded.py).  Two arrangements:
              pathfs.standard_spec (symlink cycles included) and pathfs.acyclic_spec (cycle-free, outward /
              inward / sibling directory links at depth >= 1 below the prefixes that get listed).
+             HISTORIES: one long-lived LocalStorageBackend / DataFileManager / Table handle uses a string, the
+             arrangement inside the root is CHANGED (directory -> outward link, files -> outward links,
+             subdirectory -> outward link, directory -> sibling link, metadata -> outward link, outward link ->
+             directory), and the same handle uses the string again; every use is judged against the arrangement
+             current at that use (pathaudit.run_history), and differentially against the stateless model
+             (hist-resolve / hist-arrow / hist-listing).
 """
 from __future__ import annotations
 
@@ -49,6 +55,8 @@ THEOREMS = [
     "C17_listing_relative",
     "C17_listing_scans_inside",
     "C17_entrypoints",
+    "C17_history_inside",
+    "C17_history_stateless",
     "C17_fuel_sufficient",
     "C17_legacy_resolver_refuted",
 ]
@@ -65,7 +73,9 @@ MANIFEST_ENTRY = {
                   "(C17_resolve_is_kernel_location); likewise _get_arrow_path's three-way split (C17_arrow_inside); list_files yields "
                   "only '..'-free names of files below the resolved prefix (C17_listing_relative) and scans only real, link-free "
                   "directories at or below it -- never through a directory link, inward or outward (C17_listing_scans_inside); every entry point of the table "
-                  "regenerated from the source hands the OS only its guard's result or that result's parent (C17_entrypoints); "
+                  "regenerated from the source hands the OS only its guard's result or that result's parent (C17_entrypoints), also at "
+                  "every step of a history in which the arrangement changes between uses of one handle -- a handle carries no "
+                  "validated-path state (C17_history_inside, C17_history_stateless); "
                   "commonpath containment is component-wise prefix (C17_commonpath_prefix); fuel = number of links suffices "
                   "(C17_fuel_sufficient); the resolver as found is refuted by a concrete tree (C17_legacy_resolver_refuted). Model tied "
                   "to the code by golden-shape / taint translation of the guards and by differential execution against real symlink "
@@ -132,6 +142,9 @@ def report(ctx, problems: List[Dict[str, Any]]) -> None:
             "runaway": "entry point {entry}({path!r}) [root {base}, {arrangement}] did not return: {why} ({os_calls_before_the_limit} audited OS calls so far)",
         }[pr["rule"]].format(**{"touched": None, "changed": None, "result": None, "foreign": None, "why": None,
                                 "os_calls_before_the_limit": None, "arrangement": "standard_spec", **pr})
+        if pr.get("history"):
+            what = ("after the history [" + " ; ".join(" ".join(st) for st in pr["history"]["steps"][:pr.get("step", 0)]) +
+                    f"] on ONE long-lived {pr['history']['handle']} handle: " + what)
         ctx.violation(key, what, pr)
 
 
@@ -436,6 +449,138 @@ def oracle_table(ctx, strings: Sequence[str]) -> None:
     ctx.stats["audit_table_skipped_after_runaway"] = dict(brk.skipped)
 
 
+# ------------------------------------------------------------------------------------------ oracle: histories
+HISTORY_PATHS = {
+    "dir->outlink:data": ["data/f.parquet", "/data/f.parquet", "data/part/a.parquet", "data", "data/new.parquet", "<ws>/wh/tbl/data/f.parquet"],
+    "files->outlinks:data": ["data/f.parquet", "/data/f.parquet", "<ws>/wh/tbl/data/f.parquet", "data"],
+    "subdir->outlink:data/part": ["data/part/a.parquet", "/data/part/a.parquet", "data/part", "data/part/new.parquet"],
+    "dir->siblinglink:data": ["data/f.parquet", "/data/f.parquet", "data"],
+    "dir->outlink:metadata": ["metadata/m.json", "/metadata/m.json", "metadata"],
+    "outlink->dir:data/ext": ["data/ext/secret.txt", "data/ext"],
+}
+
+
+def history_cases(tier: str) -> List[Tuple[str, str, List[List[str]]]]:
+    """(handle kind, root spelling, steps): use a string, CHANGE the arrangement, use the same string again through the
+    same handle -- every second-use entry point x first-use entry points that make the handle resolve the string."""
+    quick = tier == "quick"
+    out: List[Tuple[str, str, List[List[str]]]] = []
+    first = {"storage": ["read_file", "write_file"] if quick else ["read_file", "write_file", "exists", "list_files", "get_size"],
+             "dfm": list(pathaudit.dfm_entry_points())}
+    second = {"storage": list(pathaudit.storage_entry_points()), "dfm": list(pathaudit.dfm_entry_points())}
+    for kind in ("dfm", "storage"):
+        for mut in pathaudit.MUTATIONS:
+            paths = HISTORY_PATHS[mut]
+            if quick and kind == "storage":
+                paths = paths[:3]
+            for base_kind in ("direct", "symlink"):
+                for p in paths:
+                    for e1 in first[kind]:
+                        for e2 in second[kind]:
+                            out.append((kind, base_kind, [["call", e1, p], ["mutate", mut], ["call", e2, p]]))
+    tops = list(pathaudit.table_ops())
+    for mut in pathaudit.MUTATIONS[:5]:
+        firsts = ["scan_noverify"] + (["append_records"] if mut == "dir->outlink:data" or not quick else []) + ([] if quick else ["scan", "row_count"])
+        for base_kind in ("direct", "symlink"):
+            for e1 in firsts:
+                for e2 in tops:
+                    out.append(("table", base_kind, [["call", e1, "-"], ["mutate", mut], ["call", e2, "-"]]))
+    # longer histories: change, use, change back, use -- and two different changes in a row
+    for kind, e in (("dfm", "open_parquet_source"), ("storage", "read_file")):
+        for base_kind in ("direct", "symlink"):
+            out.append((kind, base_kind, [["call", e, "data/f.parquet"], ["mutate", "files->outlinks:data"], ["call", e, "data/f.parquet"],
+                                          ["mutate", "dir->outlink:data"], ["call", e, "data/f.parquet"], ["call", e, "data/part/a.parquet"]]))
+    return out
+
+
+def oracle_history(ctx) -> None:
+    audit = Audit.get()
+    cases = history_cases(ctx.tier)
+    wsps: Dict[bool, pathaudit.Workspace] = {}
+    judges: Dict[bool, pathaudit.Judge] = {}
+    brk = Breaker(limit=3)
+    outcomes: collections.Counter = collections.Counter()
+    n = 0
+    for kind, base_kind, steps in cases:
+        tbl = kind == "table"
+        if tbl not in wsps:
+            wsps[tbl] = pathaudit.history_workspace(os.path.join(ctx.scratch, "ws-history-" + ("table" if tbl else "plain")), with_table=tbl)
+            judges[tbl] = pathaudit.Judge(wsps[tbl])
+        last = steps[-1][1]
+        if brk.tripped(f"{kind}:{last}"):
+            continue
+        outs, problems = pathaudit.run_history(wsps[tbl], judges[tbl], audit, kind, base_kind, steps)
+        for o in outs:
+            brk.note(f"{kind}:{last}", o)
+        outcomes[f"{kind}:{steps[1][1] if steps[1][0] == 'mutate' else '-'}:{last}:{outs[-1]}"] += 1
+        n += 1
+        ctx.count(1, ("history", kind, base_kind, repr(steps)))
+        report(ctx, problems)
+    ctx.stats["history_cases"] = n
+    ctx.stats["history_outcomes_second_use"] = dict(sorted(outcomes.items()))
+    ctx.sample({"history_case": {"handle": cases[0][0], "base": cases[0][1], "steps": cases[0][2]}})
+    for w in wsps.values():
+        shutil.rmtree(w.ws, ignore_errors=True)
+
+
+def corr_history(ctx) -> None:
+    """Statelessness, differentially: ONE LocalStorageBackend / DataFileManager per (change, root spelling) resolves every string
+    under the first arrangement, the arrangement is changed, the SAME objects resolve every string again; both passes must equal the
+    model evaluated on the tree of that pass (run_history = map run_entry)."""
+    from datashard.storage_backend import LocalStorageBackend
+    strings = ["", ".", "data", "metadata"] + pathfs.grammar(2, ["..", "data", "metadata", "part", "ext", "hot", "f.parquet", "a.parquet", "m.json", "secret.txt"])
+    strings = list(dict.fromkeys(strings))
+    exprs: List[str] = []
+    impl: List[Tuple[Any, ...]] = []
+    meta: List[Dict[str, Any]] = []
+    pre: List[str] = []
+    top = os.path.realpath(tempfile.mkdtemp(prefix="ws-hist-corr-", dir=ctx.scratch))
+    for mi, mut in enumerate(pathaudit.MUTATIONS):
+        for base_kind in ("direct", "symlink"):
+            wsp = pathaudit.history_workspace(os.path.join(top, f"m{mi}{base_kind}"), with_table=False)
+            base = wsp.root if base_kind == "direct" else wsp.lnroot
+            codes = Codes()
+            calls = ImplCalls(ctx, "acyclic_spec", wsp.ws)
+            b = LocalStorageBackend(base)
+            dfm = pathaudit.make_dfm(base)
+            extra = [wsp.root + "/data/f.parquet", wsp.lnroot + "/data/part/a.parquet", wsp.ws + "/out/shadow_data/f.parquet"]
+            for phase in (1, 2):
+                if phase == 2:
+                    pathaudit.mutate(wsp, mut)
+                tname = f"T_{mi}_{base_kind}_{phase}"
+                tree_now = pathfs.spec_to_coq(wsp.ws, pathfs.scan_spec(wsp.ws), codes)
+                pre.append((tname, tree_now))
+                base_c = coq_list(codes.pstr(base))
+                for p in strings + extra:
+                    hist = {"rule": "runaway", "history": {"handle": "dfm", "base": base_kind,
+                                                           "steps": [["call", "open_parquet_source", p.replace(wsp.ws, "<ws>")], ["mutate", mut],
+                                                                     ["call", "open_parquet_source", p.replace(wsp.ws, "<ws>")]]}}
+                    listed, _sc = calls.listing(base_kind, b, codes, p, hist)
+                    impl.append((calls.resolve("_resolve_path", base_kind, b._resolve_path, codes, p, hist),
+                                 calls.resolve("_get_arrow_path", base_kind, dfm._get_arrow_path, codes, p, hist), listed))
+                    pc = coq_list(codes.pstr(p))
+                    exprs.append((tname, f"(resolve {FUEL} {tname} [] {base_c} {pc}, arrow_path {FUEL} {tname} [] gen_table_dirs {base_c} {pc}, "
+                                         f"list_files {FUEL} {KFUEL} {tname} [] {base_c} {pc})"))
+                    meta.append({"change": mut, "base": base_kind, "pass": phase, "path": p.replace(wsp.ws, "<ws>")})
+            # codes differ per workspace: finalise this workspace's trees now (names are allocated lazily, trees rendered above)
+    preamble = "\n".join(f"Definition {n} : tree := {t}." for n, t in pre)
+    got = coqbuild.coq_eval(REQ, [e for _t, e in exprs], preamble=preamble, chunk=300)
+    names = ["hist-resolve", "hist-arrow", "hist-listing"]
+    bad: Dict[str, List[Any]] = {n: [] for n in names}
+    for m, im, g in zip(meta, impl, got):
+        ctx.count(1, ("hist-corr", repr(m)))
+        for i, n in enumerate(names):
+            gv, iv = norm_model(g[i]), im[i]
+            if isinstance(iv, tuple) and len(iv) == 3 and iv[1] == "skipped":
+                continue
+            if gv != iv:
+                bad[n].append({**m, "impl": repr(iv)[:300], "model": repr(gv)[:300]})
+    for n in names:
+        ctx.correspondence(n, len(meta), bad[n])
+    ctx.stats["corr_history_cases"] = len(meta)
+    shutil.rmtree(top, ignore_errors=True)
+
+
 STRACE_DRIVER = r"""
 import os, sys
 ws, verif = sys.argv[1], sys.argv[2]
@@ -645,7 +790,7 @@ def corr_paths(ctx, strings: Sequence[str], arrangement: str = "standard") -> No
             dfm = pathaudit.make_dfm(base)
             # thorough: the depth-4 grammar is exhaustive for the direct root; the other spellings take every k-th string
             big = len(strings) > 10000
-            subset = strings if bi == 0 else (strings[:: 3] if big else strings) if bi == 1 else strings[:: 23 if big else 7]
+            subset = strings if bi == 0 else (strings[:: 5] if big else strings) if bi == 1 else strings[:: 23 if big else 7]
             cwd_c = coq_list(codes.loc(cwd))
             base_c = coq_list(codes.pstr(base))
             for p in subset:
@@ -793,7 +938,9 @@ def run(ctx) -> None:
                 "(outward / inward / sibling DIRECTORY links at depth >= 1 below listed prefixes) x every storage entry point x its own "
                 "prefix grammar, and untampered table operations (garbage_collect, scan, append+gc, row_count) over both arrangements; "
                 "every library call runs under a time limit, a memory limit and a hard limit (harness/lib/bounded.py); a case is "
-                "distinct by (arrangement, entry point, root spelling, string)")
+                "distinct by (arrangement, entry point, root spelling, string); histories: (handle kind) x (first-use entry point) x "
+                "(6 arrangement changes) x (second-use entry point) x affected strings x root spelling on ONE long-lived handle, plus "
+                "change / change-again sequences")
     ctx.trusted_base += [
         "translator/gen_path.py (golden AST shapes of canonical_path, _resolve_path, _get_arrow_path, list_files' guard, write guards; regenerated constants)",
         "Model/Path.v's rendering of CPython 3.12 posixpath.realpath/_joinrealpath/commonpath/relpath/join and of the kernel path walk "
@@ -831,6 +978,7 @@ def run(ctx) -> None:
         table_strings = table_strings[::4]
     staged('audit_acyclic', lambda: oracle_acyclic(ctx, 2 if quick else 3))
     staged('audit_table', lambda: oracle_table(ctx, table_strings))
+    staged('audit_history', lambda: oracle_history(ctx))
     staged('strace', lambda: oracle_strace(ctx))
     ctx.stats["audit_strings_storage"] = len(audit_strings)
     ctx.stats["audit_strings_table"] = len(table_strings)
@@ -839,8 +987,9 @@ def run(ctx) -> None:
         corr_strings = pathfs.grammar(3) if quick else pathfs.grammar(4)
         staged('corr_standard', lambda: corr_paths(ctx, corr_strings))
         staged('corr_acyclic', lambda: corr_paths(ctx, pathfs.grammar(2 if quick else 3, pathfs.ACYCLIC_COMPONENTS), arrangement="acyclic"))
+        staged('corr_history', lambda: corr_history(ctx))
         staged('corr_entries', lambda: corr_entries(ctx, obs_ws, obs, 3))
-        staged('corr_random', lambda: corr_random_trees(ctx, 60 if quick else 600, 25))
+        staged('corr_random', lambda: corr_random_trees(ctx, 60 if quick else 400, 25))
     except RuntimeError as e:
         ctx.proof_problems.append("model evaluation failed: " + str(e)[:800])
     ctx.stats["bounded_calls"] = {"soft_limit_s": guard.soft_s, "hard_limit_s": guard.hard_s, "memory_limit_mb": guard.mem_mb,
@@ -864,6 +1013,17 @@ def replay(ctx, payload) -> int:
         return 2
     install_guard(ctx)
     warm_up()
+    if case.get("history"):
+        h = case["history"]
+        wsp = pathaudit.history_workspace(os.path.join(ctx.scratch, "ws-replay-history"), with_table=(h["handle"] == "table"))
+        outs, problems = pathaudit.run_history(wsp, pathaudit.Judge(wsp), Audit.get(), h["handle"], h["base"], h["steps"])
+        print(f"replay: history on one {h['handle']} handle (root {h['base']}): {h['steps']} -> outcomes {outs}")
+        for pr in problems:
+            pr.pop("history", None)
+            print("replay: STILL FAILS", pr)
+        if not problems:
+            print("replay: passes now")
+        return 1 if problems else 0
     entry, p, base_kind = case["entry"], case["path"], case["base"]
     if case.get("tree"):
         return replay_random_tree(ctx, case)
